@@ -5,11 +5,12 @@
 (*   composition + siblings -> AllOf(base, allOf..., OneOf, AnyOf, Not)    *)
 (*   with trivial Element() members filtered; type lists -> AnyOf;         *)
 (*   "type": "object" -> class with synthetic required properties.         *)
-(* Class naming / de-duplication over the explicit parse state lives in    *)
-(* ParserState.tla; here names are the raw titles (verdicts and results do *)
-(* not depend on names).                                                   *)
+(* Every schema carries the autotitle the labeller derives from its JSON   *)
+(* pointer (Titles.tla); an object class is named TitleFormat(title or     *)
+(* autotitle).  De-duplication suffixes (_ParseState.dedupe) are assigned  *)
+(* over the creation order of classes in Naming.tla.                       *)
 (***************************************************************************)
-EXTENDS Elements, Names, TLC
+EXTENDS Elements, Titles
 
 KeepFalsyDefault      == TRUE   \* _parse_composition: `default or element.default`
 SingleTypeKeepsDefault == TRUE  \* _parse_multi_typed, one-element type list
@@ -42,36 +43,40 @@ Compose(cls, es) ==
 
 IsTrivial(e) == e.cls = "Element" /\ DOMAIN e.kw = {} /\ Len(e.elems) = 0
 
-RECURSIVE Parse(_)
+RECURSIVE ParseT(_, _)      \* schema, autotitle of the schema
 
-ParseSeqOf(ss) == [i \in 1..Len(ss) |-> Parse(ss[i])]
-ParsePairsOf(ps) == [i \in 1..Len(ps) |-> << ps[i][1], Parse(ps[i][2]) >>]
+ParseSeqOf(ss, t, kind) ==
+  [i \in 1..Len(ss) |-> ParseT(ss[i], AutoChild(t, kind, ToString(i - 1)))]
+ParsePairsOf(ps, t, kind) ==
+  [i \in 1..Len(ps) |-> << ps[i][1], ParseT(ps[i][2], AutoChild(t, kind, ps[i][1])) >>]
 
 (* _parse_properties *)
-ParseProps(S) ==
+ParseProps(S, t) ==
   LET req == IF Has(S, "required") THEN SeqRange(S.required) ELSE {}
   IN [i \in 1..Len(S.properties) |->
         [attr |-> AttrName(S.properties[i][1]), source |-> S.properties[i][1],
-         required |-> S.properties[i][1] \in req, elem |-> Parse(S.properties[i][2])]]
+         required |-> S.properties[i][1] \in req,
+         elem |-> ParseT(S.properties[i][2], AutoChild(t, "properties", S.properties[i][1]))]]
 
 (* the schema dict after parse_element has rewritten it in place, as kw record *)
 SimpleKws == {"default", "const", "enum", "minimum", "maximum", "exclusiveMinimum",
               "exclusiveMaximum", "multipleOf", "minLength", "maxLength", "pattern", "format",
               "minItems", "maxItems", "minProperties", "maxProperties", "required", "depsL",
               "description"}
-Parsed(S) ==
+Parsed(S, t) ==
   LET simple == [k \in DOMAIN S \cap SimpleKws |-> S[k]]
       uniq == IF Has(S, "uniqueItems") /\ S.uniqueItems THEN [uniqueItems |-> TRUE] ELSE EmptyKw
-      one(kw) == IF Has(S, kw) THEN (kw :> Parse(S[kw])) ELSE EmptyKw
+      one(kw) == IF Has(S, kw) THEN (kw :> ParseT(S[kw], AutoChild(t, kw, ""))) ELSE EmptyKw
       addl(kw, kwB) ==
         IF ~Has(S, kw) THEN EmptyKw
         ELSE IF IsBoolSchema(S[kw]) THEN (IF S[kw].bs THEN EmptyKw ELSE (kwB :> FALSE))
-        ELSE (kw :> Parse(S[kw]))
-      itT == IF Has(S, "itemsT") THEN [itemsT |-> ParseSeqOf(S.itemsT)] ELSE EmptyKw
+        ELSE (kw :> ParseT(S[kw], AutoChild(t, kw, "")))
+      itT == IF Has(S, "itemsT") THEN [itemsT |-> ParseSeqOf(S.itemsT, t, "itemsT")] ELSE EmptyKw
       pats == IF Has(S, "patternProperties")
-              THEN [patternProperties |-> ParsePairsOf(S.patternProperties)] ELSE EmptyKw
-      deps == IF Has(S, "depsS") THEN [depsS |-> ParsePairsOf(S.depsS)] ELSE EmptyKw
-      props == IF Has(S, "properties") THEN [properties |-> ParseProps(S)] ELSE EmptyKw
+              THEN [patternProperties |-> ParsePairsOf(S.patternProperties, t, "patternProperties")]
+              ELSE EmptyKw
+      deps == IF Has(S, "depsS") THEN [depsS |-> ParsePairsOf(S.depsS, t, "depsS")] ELSE EmptyKw
+      props == IF Has(S, "properties") THEN [properties |-> ParseProps(S, t)] ELSE EmptyKw
   IN simple @@ uniq @@ one("items") @@ one("contains") @@ one("propertyNames")
        @@ addl("additionalItems", "additionalItemsB")
        @@ addl("additionalProperties", "additionalPropertiesB")
@@ -92,8 +97,8 @@ FirstErr(es) ==
   LET bad == {i \in 1..Len(es) : IsErr(es[i])}
   IN IF bad = {} THEN ElementE ELSE es[CHOOSE i \in bad : \A j \in bad : i <= j]
 
-(* _parse_object (class name: raw title; see ParserState for naming) *)
-ParseObject(S, P) ==
+(* _parse_object (class name before de-duplication; see Naming.tla) *)
+ParseObject(S, P, t) ==
   LET props0 == IF "properties" \in DOMAIN P THEN P.properties ELSE <<>>
       req == IF Has(S, "required") THEN S.required ELSE <<>>
       attrs0 == {props0[i].attr : i \in 1..Len(props0)}
@@ -105,36 +110,38 @@ ParseObject(S, P) ==
              ELSE << [attr |-> a, source |-> req[i], required |-> TRUE, elem |-> ElementE] >>
                   \o synth(i + 1, seen \cup {a})
       kw == Restrict(P, ClassKws("Object")) @@ [properties |-> props0 \o synth(1, attrs0)]
-  IN MkObj(IF Has(S, "title") THEN S.title ELSE "", [kw EXCEPT !.properties = props0 \o synth(1, attrs0)])
+  IN MkObj(TitleFormat(IF Has(S, "title") THEN S.title ELSE t),
+           [kw EXCEPT !.properties = props0 \o synth(1, attrs0)])
 
-ParseTypedOne(t, S, P) ==
-  IF t = "object" THEN ParseObject(S, P)
-  ELSE IF t = "array" THEN
+ParseTypedOne(ty, S, P, t) ==
+  IF ty = "object" THEN ParseObject(S, P, t)
+  ELSE IF ty = "array" THEN
      LET kw == Restrict(P, ClassKws("Array"))
      IN Mk("Array", IF "items" \in DOMAIN kw \/ "itemsT" \in DOMAIN kw THEN kw
                     ELSE kw @@ [items |-> ElementE])
-  ELSE Mk(TypeClass(t), Restrict(P, ClassKws(TypeClass(t))))
+  ELSE Mk(TypeClass(ty), Restrict(P, ClassKws(TypeClass(ty))))
 
 (* schema without composition keywords: untyped, typed, or multi-typed *)
-ParseNoComp(S, P) ==
-  IF Has(S, "type") THEN ParseTypedOne(S.type, S, P)
+ParseNoComp(S, P, t) ==
+  IF Has(S, "type") THEN ParseTypedOne(S.type, S, P, t)
   ELSE IF Has(S, "types") THEN
      LET P0 == Without(P, {"default"})
          d  == IF "default" \in DOMAIN P THEN [default |-> P.default] ELSE EmptyKw
      IN IF Len(S.types) = 1
-        THEN ParseTypedOne(S.types[1], S, IF SingleTypeKeepsDefault THEN P ELSE P0)
-        ELSE MkComp("AnyOf", [i \in 1..Len(S.types) |-> ParseTypedOne(S.types[i], S, P0)], d)
+        THEN ParseTypedOne(S.types[1], S, IF SingleTypeKeepsDefault THEN P ELSE P0, t)
+        ELSE MkComp("AnyOf", [i \in 1..Len(S.types) |-> ParseTypedOne(S.types[i], S, P0, t)], d)
   ELSE Mk("Element", P)
 
 (* _parse_composition *)
-ParseComposition(S, P) ==
-  LET base == ParseNoComp(S, Without(P, {"default"}))
-      lst(kw) == IF Has(S, kw) THEN ParseSeqOf(S[kw]) ELSE <<>>
-      nots == IF Has(S, "not") THEN << MkComp("Not", <<Parse(S["not"])>>, EmptyKw) >> ELSE <<>>
+ParseComposition(S, P, t) ==
+  LET base == ParseNoComp(S, Without(P, {"default"}), t)
+      lst(kw) == IF Has(S, kw) THEN ParseSeqOf(S[kw], t, kw) ELSE <<>>
+      notE == ParseT(S["not"], AutoChild(t, "not", ""))
+      nots == IF Has(S, "not") THEN << MkComp("Not", <<notE>>, EmptyKw) >> ELSE <<>>
       allOf == <<base>> \o lst("allOf") \o <<Compose("OneOf", lst("oneOf"))>>
                  \o <<Compose("AnyOf", lst("anyOf"))>> \o nots
       errs == FirstErr(lst("allOf") \o lst("oneOf") \o lst("anyOf")
-                       \o (IF Has(S, "not") THEN <<Parse(S["not"])>> ELSE <<>>))
+                       \o (IF Has(S, "not") THEN <<notE>> ELSE <<>>))
       kept == SelectSeq(allOf, LAMBDA e : ~IsTrivial(e))
       element == Compose("AllOf", kept)
       hasD == "default" \in DOMAIN P
@@ -148,12 +155,15 @@ ParseComposition(S, P) ==
                                          IF k = "default" THEN P.default ELSE element.kw[k]]]
      ELSE element
 
-Parse(S) ==
+ParseT(S, t) ==
   IF IsBoolSchema(S) THEN (IF S.bs THEN ElementE ELSE NothingE)
   ELSE IF DOMAIN S \cap UnsupportedKws # {} THEN ErrE("notimpl")
-  ELSE LET P == Parsed(S)
+  ELSE LET P == Parsed(S, t)
            err == FirstErr(KwElems(P))
        IN IF IsErr(err) THEN err
-          ELSE IF DOMAIN S \cap CompKws # {} THEN ParseComposition(S, P)
-          ELSE ParseNoComp(S, P)
+          ELSE IF DOMAIN S \cap CompKws # {} THEN ParseComposition(S, P, t)
+          ELSE ParseNoComp(S, P, t)
+
+RootTitle == "doc"          \* the document is served as doc.json
+Parse(S) == ParseT(S, RootTitle)
 =============================================================================
